@@ -84,11 +84,11 @@ func GenRunSpec(procSeed uint64, idx int, pool []*Key, eligible []int) RunSpec {
 			forms := k.OptForms()
 			cs := CallSpec{Key: ki, Form: forms[r.Intn(len(forms))]}
 			if k.API == "compile" && r.Chance(1, 3) {
-				cs.Form = "shared"
+				cs.Form = []string{"shared", "sharedopts"}[r.Intn(2)]
 			}
-			if cs.Form == "shared" {
+			if IsSharedForm(cs.Form) {
 				// one shared object per distinct parameter content per run
-				sig := Dump(k.Params)
+				sig := SharedSig(k, cs.Form)
 				id, ok := sharedFor[sig]
 				if !ok {
 					nShared++
@@ -179,8 +179,8 @@ func GenHistorySpec(procSeed uint64, idx int, pool []*Key, eligible []int) RunSp
 			k := pool[ki]
 			forms := k.OptForms()
 			cs := CallSpec{Key: ki, Form: forms[r.Intn(len(forms))]}
-			if cs.Form == "shared" {
-				sig := Dump(k.Params)
+			if IsSharedForm(cs.Form) {
+				sig := SharedSig(k, cs.Form)
 				id, ok := sharedFor[sig]
 				if !ok {
 					nShared++
